@@ -75,6 +75,20 @@ def m_num_cmp(ex, st, callee, args, dest_ty):
     yield st, mk_bool(z3.simplify(r))
 
 
+def m_dec_to_int(ex, st, callee, args, dest_ty):
+    """decQuadToUInt32 / decQuadToInt32 with DEC_ROUND_HALF_EVEN (dec.rs): the value rounded to an integer, 0 when that
+    does not fit (Invalid operation).  For a non-integer the rounded result is floor or floor+1 (which one is not modelled)."""
+    n = deref(ex, st, args[0])
+    T = "u32" if callee.endswith("dec_to_u32") else "i32"
+    up = ex.fresh_bool("round_up")
+    r = z3.If(_isint(n), n.e, z3.If(up.e, n.e + 1, n.e))
+    yield st, Sc(z3.simplify(z3.If(in_range(r, T), r, z3.IntVal(0))), T)
+
+
+def m_num_from_int(ex, st, callee, args, dest_ty):
+    yield st, Opaque("FeelNumber", args[0].e, {"int": z3.BoolVal(True)})
+
+
 def m_to_string_opaque(ex, st, callee, args, dest_ty):
     yield st, StrV("")
 
@@ -83,6 +97,8 @@ NUM_MODELS = [
     (R(r"^FeelNumber::(is_positive|is_negative|is_integer|is_zero|is_one)$"), m_num_pred),
     (R(r"^FeelNumber::to_(usize|isize|u64|u8|i32|u32)$"), m_num_to_int),
     (R(r"^<\w+ as TryFrom<&?FeelNumber>>::try_from$"), m_num_try_from),
+    (R(r"(^|::)dec_to_(u32|i32)$"), m_dec_to_int),
+    (R(r"^<FeelNumber as From<(i|u)(\d+|size)>>::from$|^<(i|u)(\d+|size) as Into<FeelNumber>>::into$"), m_num_from_int),
     (R(r"^FeelNumber::abs$"), m_num_abs),
     (R(r"^FeelNumber::trunc$"), m_num_trunc),
     (R(r"^FeelNumber::(one|zero|two)$"), m_num_const),
